@@ -15,10 +15,12 @@ import (
 	"os"
 	"path/filepath"
 	"strings"
+	"sync"
 	"time"
 
 	"github.com/rqlite/rqlite/v10/command/proto"
 	csql "github.com/rqlite/rqlite/v10/command/sql"
+	"github.com/rqlite/rqlite/v10/store"
 	"verif/internal/hcluster"
 	"verif/internal/sqlref"
 	"verif/internal/vf"
@@ -186,7 +188,13 @@ func (h *harness) rebaseline() error {
 
 // observe compares every node with the recorded state and then adopts the new state.
 func (h *harness) observe() ([]Change, error) {
-	var out []Change
+	type item struct {
+		n             *hcluster.Node
+		before, after nodeState
+		d             *sqlref.Dump
+		err           error
+	}
+	var changed []*item
 	for _, n := range h.nodes {
 		before := h.cur[n.ID]
 		after := h.readState(n)
@@ -194,22 +202,37 @@ func (h *harness) observe() ([]Change, error) {
 		if after.DBHash == before.DBHash && after.WALHash == before.WALHash {
 			continue
 		}
+		changed = append(changed, &item{n: n, before: before, after: after})
+	}
+	if len(changed) == 0 {
+		return nil, nil
+	}
+	var wg sync.WaitGroup
+	for _, it := range changed {
+		wg.Add(1)
+		go func(it *item) {
+			defer wg.Done()
+			it.d, it.err = sqlref.DumpFile(filepath.Join(it.n.Dir, "db.sqlite"))
+		}(it)
+	}
+	wg.Wait()
+	var out []Change
+	for _, it := range changed {
 		h.counts["file_bytes_changed"]++
-		d, err := sqlref.DumpFile(filepath.Join(n.Dir, "db.sqlite"))
-		if err != nil {
-			return out, fmt.Errorf("dump %s: %w", n.ID, err)
+		if it.err != nil {
+			return out, fmt.Errorf("dump %s: %w", it.n.ID, it.err)
 		}
 		h.counts["dumps_taken"]++
-		ch := Change{Node: n.ID, Before: before, After: after}
-		if d.String() != h.dumps[n.ID].String() {
+		ch := Change{Node: it.n.ID, Before: it.before, After: it.after}
+		if it.d.String() != h.dumps[it.n.ID].String() {
 			ch.Logical = true
-			ch.Diff = sqlref.Diff(h.dumps[n.ID], d)
-		} else if after.DBSize != before.DBSize || after.WALSize != before.WALSize {
+			ch.Diff = sqlref.Diff(h.dumps[it.n.ID], it.d)
+		} else if it.after.DBSize != it.before.DBSize || it.after.WALSize != it.before.WALSize {
 			ch.SizeOnly = true
 		} else {
 			ch.BytesOnly = true
 		}
-		h.dumps[n.ID] = d
+		h.dumps[it.n.ID] = it.d
 		out = append(out, ch)
 	}
 	return out, nil
@@ -247,7 +270,9 @@ func startCluster(dir string) (*harness, error) {
 	for i := 1; i <= 3; i++ {
 		o := hcluster.Options{ID: fmt.Sprintf("n%d", i), HeartbeatTimeout: 3 * time.Second, ElectionTimeout: 3 * time.Second, LeaderLease: 2 * time.Second,
 			// no snapshots: they legitimately checkpoint the WAL and would change file sizes
-			SnapshotThreshold: 1 << 40, SnapshotInterval: time.Hour, NoSnapshotOnClose: true}
+			SnapshotThreshold: 1 << 40, SnapshotInterval: time.Hour, NoSnapshotOnClose: true,
+			// followers learn about a commit with the next AppendEntries; keep that short
+			Tune: func(s *store.Store) { s.CommitTimeout = 10 * time.Millisecond }}
 		n, err := cl.Add(o, true)
 		if err != nil {
 			cl.Close()
@@ -462,17 +487,23 @@ func (h *harness) run(t *Text, c Combo) ReqResult {
 		h.counts["accepted_changes_by_writes"]++
 	}
 
-	// A transaction left open on the read-write connection would hide every later
-	// change from the files: close it (through the log) and start from what is there.
-	if t.TxnCtl && (ep == "request" || ep == "mixed") {
-		if ll := h.cl.WaitLeader(60 * time.Second); ll != nil {
-			h.cl.PostJSON(ll, "/db/execute", []any{"ROLLBACK"})
-			h.quiesce(60 * time.Second)
-			post, err := h.observe()
-			if err == nil && len(post) > 0 {
-				// the rollback itself changed files: belongs to this request's effects
-				res.Changes = append(res.Changes, post...)
+	// A transaction left open by the text must not outlive the case: on the
+	// read-write connection it would hide every later change from the files, on a
+	// pooled read-only connection it pins the WAL (snapshots then fail with
+	// "checkpoint busy"). Close it the way it was opened and fold whatever that
+	// does into this request's effects.
+	if t.TxnCtl {
+		if ep == "request" || ep == "mixed" {
+			if ll := h.cl.WaitLeader(60 * time.Second); ll != nil {
+				h.cl.PostJSON(ll, "/db/execute", []any{"ROLLBACK"})
 			}
+		} else {
+			h.cl.Do(target, "GET", "/db/query?level="+c.Level+"&q=ROLLBACK", nil, nil)
+		}
+		h.counts["harness_rollbacks"]++
+		h.quiesce(60 * time.Second)
+		if post, err := h.observe(); err == nil && len(post) > 0 {
+			res.Changes = append(res.Changes, post...)
 		}
 	}
 	return res
